@@ -554,6 +554,13 @@ CORNER_EXPRS += ["f(_loop_vars=1)", "f(_block_vars=1)", "f(1, _loop_vars=x, **k)
                  "[] == {[]: 1}", "{[]: 1}|length", "1 if {[]: 1}", "{{}: 1}.x", "{[1]: 2}[0]", "{[]: 1} ~ x",
                  "{(1, []): 1}", "[{[]: 1}]", "x in {[]: 1}", "{1: 2, 1: 3}", "{x: 1, x: 2}", "{none: 1, (): 2}"]
 
+# values at interpreter limits INSIDE containers that constant folding builds (no decimal literal)
+_BIG = ["10**5000", "-(10**5000)", "2**20000", "0x" + "f" * 5000]
+CORNER_EXPRS += [f.replace("B", b) for b in _BIG for f in (
+    "[B] + [1]", "(B,) + (1,)", "[B] * 2", "{1: B}", "{B: 1}", "[[B]] + [[]]", "(B, 1)[0:1]", "([B] + [1])|length",
+    "x in [B] + [1]", "[B, 1][1]", "{'a': [B]}.a", "[B] + [1] if x else 2", "f(*([B] + [1]))", "([B] + [x])|first",
+    "(1, B) + (x,)", "[B] == [B]", "((B,) * 2)[1] > 1")]
+
 CORNER_TAGS = [
     "macro m(a, a)", "macro m(a, ª)", "macro m(__debug__)", "macro m(a=1, b)", "macro m(caller)",
     "macro m(caller=1, x)", "macro m(varargs)", "macro m(kwargs, varargs, caller)", "macro m(self)",
